@@ -1,3 +1,4 @@
 import Driver.Ver
 import Driver.Rx
 import Driver.Tags
+import Driver.Platform
